@@ -166,7 +166,9 @@ impl IoUringContext<'_> {
         let Some(arc) = CURRENT_IOU_ARC.with(|c| c.borrow().as_ref().map(Arc::clone)) else {
             return;
         };
-        let mut lock = arc.lock().expect("IoUringHostState mutex poisoned");
+        // Drop paths must never panic: this runs from `IoUring::drop`, possibly while
+        // unwinding from a panic that poisoned the mutex.
+        let mut lock = arc.lock().unwrap_or_else(|e| e.into_inner());
         let now = CURRENT_NOW.with(|c| c.get());
         f(IoUringContext {
             io_uring: &mut lock,
